@@ -11,7 +11,7 @@ EXPLANATION = ('Decides on the MIR of the current tree: each comparison that sel
                'normal form (operator and operands), in the partition, segment, index-reader, log-reader and accumulator code; each hand-over of a range between these layers passes '
                'the confirmed argument forms (first = by-offset 0, last = 1+current-min(count,current+1), next = stored+1, disk part ends at first buffered offset - 1, cached index gets '
                'relative offsets and the file index gets absolute ones plus the segment start); the cached and the file index lookup and the two range readers agree; on the mixed path '
-               'disk is read before the buffer. Not decided: equality of the returned list with the stored slice for every history/poll/configuration.')
+               'disk is read before the buffer. Also: the on-disk batch header and index entry are written and read at the same byte ranges under the same field names; a flushed batch records the offsets and the timestamp of its last message; a poll served from the message cache slices it with both bounds relative to the first cached offset. Not decided: equality of the returned list with the stored slice for every history/poll/configuration.')
 ASSUMPTIONS = ['forms in props/read_forms.py are the pinned representation of the read path (a representation change must update the table)']
 
 
